@@ -1,7 +1,6 @@
 (** C18: the model table and the spec table of Model/Der.v agree, key by key, wherever the spec is defined
     (spec entry <> Unsupported), for every argument list. The `*_orig` entries (the code before the repairs) are
-    diagnostics and are not part of the statement; `rlp.decode_item` (Rlp::val_at) is compared by the
-    correspondence run only. *)
+    diagnostics and are not part of the statement. *)
 From CB Require Import Model.Limbs Model.Conv Model.Der Proofs.WordP Proofs.LimbsP Proofs.ConvDigitsP Proofs.ConvBytesP
   Proofs.CmpBoxedP Proofs.DerSpecP Proofs.DerCodecP Proofs.DerRoutesP Proofs.RlpCodecP.
 From Coq Require Import ZArith Lia List Bool String.
@@ -199,11 +198,37 @@ Proof.
   - intros w E. destruct (rlp_decode_sound n bs w Eb E) as (_ & _ & Hv & _ & Ee).
     exists (eval w). apply (sp_rlp_decode_iff n bs (eval w) Eb). auto.
 Qed.
+Lemma entry_rlp_decode_item : let s := sp_rlp_dec_item true a in
+  s <> Unsupported -> out_limbs (rlp_decode_item true (cv_nat 1 a) (arg 0 a)) = s.
+Proof.
+  cbv zeta. unfold sp_rlp_dec_item, sp_bytes_arg. set (n := cv_nat 1 a). set (bs := arg 0 a).
+  destruct (bytes_ok bs) eqn:Eb; [|intros H; contradiction H; reflexivity]. apply bytes_ok_wfd in Eb.
+  destruct (Z.ltb_spec (lenZ bs) USIZE) as [Hu|Hu]; [|intros Hc; contradiction Hc; reflexivity]. intros _.
+  apply dec_entry.
+  - apply rlp_decode_item_nopn.
+  - intros v E. unfold sp_rlp_decode_item in E.
+    destruct (find _ _) as [k|] eqn:Ef; [|discriminate]. clear Ef.
+    apply (sp_rlp_decode_iff n (firstn k bs) v (wfd_firstn 256 k bs Eb)) in E. destruct E as [Hv Ek].
+    rewrite <- (firstn_skipn k bs) in Hu |- *. rewrite Ek in Hu |- *.
+    rewrite rlp_decode_item_run by (assumption || lia). apply rlp_decode_complete; [assumption|].
+    rewrite lenZ_app in Hu. pose proof (lenZ_nonneg (skipn k bs)). lia.
+  - intros w E. unfold rlp_decode_item in E. inv_bind E. destruct a0 as [hl vl]. cbn [fst snd] in E.
+    pose proof (payload_info_total _ _ _ Ha) as Ht. set (k0 := Z.to_nat (hl + vl)) in *.
+    destruct (rlp_decode_sound n (firstn k0 bs) w (wfd_firstn 256 k0 bs Eb) E) as (_ & _ & Hv & _ & Ee).
+    assert (Hs : sp_rlp_decode n (firstn k0 bs) = Some (eval w)).
+    { apply (sp_rlp_decode_iff n (firstn k0 bs) (eval w) (wfd_firstn 256 k0 bs Eb)). auto. }
+    unfold sp_rlp_decode_item.
+    destruct (find _ _) as [k|] eqn:Ef.
+    + apply find_some in Ef. destruct Ef as [_ Ef]. destruct (sp_rlp_decode n (firstn k bs)) as [v'|]; [exists v'; reflexivity | discriminate].
+    + exfalso. pose proof (find_none _ _ Ef k0) as Hn. cbv beta in Hn. rewrite Hs in Hn.
+      assert (In k0 (seq 0 (S (length bs)))); [|specialize (Hn H); discriminate].
+      apply in_seq. unfold k0, lenZ in *. lia.
+Qed.
 End Entries.
 
 Definition der_keys : list string :=
   ["der.encode"; "der.encoded_len"; "der.value_len"; "der.encode_value"; "der.from_der"; "der.from_any";
-   "der.from_any_parts"; "der.from_uintref"; "der.decode_value"; "rlp.encode"; "rlp.decode"]%string.
+   "der.from_any_parts"; "der.from_uintref"; "der.decode_value"; "rlp.encode"; "rlp.decode"; "rlp.decode_item"]%string.
 
 Theorem tables_agree_der : forall dbg a k, In k der_keys -> S18 k dbg a <> Unsupported -> M18 k dbg a = S18 k dbg a.
 Proof.
@@ -220,4 +245,5 @@ Proof.
   - apply entry_decode_value.
   - apply entry_rlp_encode.
   - apply entry_rlp_decode.
+  - apply entry_rlp_decode_item.
 Qed.
